@@ -875,6 +875,34 @@ def json_reader_domain(F, rep):
         rep.unresolved("R5", "json-reader-table", f"only {n} refusal conditions found in the JSON reader's validation (quantities and ratios expected)")
 
 
+def token_conversions(F, rep):
+    """R6 (the DSL reader accepts every number and date the grammar accepts and the library can hold): in the parser module the text
+    of a `decimal` / `date` token is handed to the library conversion (`Decimal::from_str`, `NaiveDate::parse_from_str`) and the
+    only refusal is the conversion's own failure. An error built BEFORE the conversion — a length or scale test on the token text
+    (seeded change C14-s7 refused 28 fractional digits, which the writer itself prints for 1/3) — makes values unreadable that
+    the writer and the JSON rendering carry."""
+    from mir import parse_callee
+    n = 0
+    for b in F.bodies.values():
+        if b.crate != "cgt_core" or "::parser::" not in b.id or b.kind == "closure" or not P.user_written(F, b):
+            continue
+        conv = [(i, t) for i, t in b.calls() if parse_callee(t["callee"])[2] in ("from_str", "parse_from_str", "from_str_exact", "from_str_radix", "from_scientific")
+                and ("rust_decimal" in t["callee"] or "chrono::" in t["callee"] or "Decimal" in t["callee"] or "NaiveDate" in t["callee"])]
+        if not conv:
+            continue
+        errs = [(i, t) for i, t in b.calls() if (parse_callee(t["callee"])[2] == "error" and "pest_consume" in t["callee"]) or "::error::Error::<R>::new_from" in t["callee"]]
+        n += 1
+        early = [(i, t) for i, t in errs if not any(b.dominates(ci, i) for ci, _ in conv)]
+        ok = not early
+        what = parse_callee(conv[0][1]["callee"])
+        rep.ob("R6", f"{b.short}:conversion-only-refusal", ok, f"the token text goes to {what[0] or ''}::{what[2]} and only its failure is an error" if ok else
+               f"`{b.short}` builds a parse error before the library conversion ({len(early)} site(s)): token texts the grammar accepts and the conversion can hold are refused, "
+               "so a value the writer prints (or JSON carries) does not read back", b.loc(early[0][1]["sp"]) if early else b.loc(), key=f"R6:{b.short}:pre-conversion-refusal")
+    rep.count("token_conversions", n)
+    if n < 2:
+        rep.unresolved("R6", "token-conversions", f"only {n} library conversions of token text found in the parser module (decimal and date expected)")
+
+
 def run(ctx, rep):
     if ctx.S is None or "error" in ctx.S["grammar"]:
         rep.unresolved("R1", "grammar", "grammar facts unavailable")
@@ -892,6 +920,7 @@ def run(ctx, rep):
             rep.ob("R1", "reader:" + o["instance"], o["ok"], o["detail"], o["site"], key="R1:reader:" + o["instance"])
     json_names(ctx.F, rep)
     json_reader_domain(ctx.F, rep)
+    token_conversions(ctx.F, rep)
     mcp_routing(ctx.F, rep)
 
 
